@@ -277,3 +277,16 @@ func init() {
 		Runs: []Run{{Pkg: hp + "c15", Variant: "real", NeedBins: []NeedBin{{Env: "VERIF_AGE_BIN", Variant: "real", Pkg: "cmd/age"}, {Env: "VERIF_KEYGEN_BIN", Variant: "real", Pkg: "cmd/age-keygen"}}}},
 	}
 }
+
+func init() {
+	specs["C20"] = &Spec{
+		Title: "Shared recipients and identities are safe under concurrency",
+		Level: "model_checking",
+		LevelText: "Stateless schedule exploration on the implementation: the age library packages are rebuilt from instrumented copies of the working tree (a scheduling point before every statement, ~800 sites; `go` and sync rewritten to a cooperative shim), and for every key type (X25519, scrypt, ssh-ed25519, ssh-rsa) and thread set (Enc||Enc, Enc||Dec, Dec||Dec; three-thread multisets on the thorough tier) sharing one recipient and one identity value, every schedule with <= 2/3 preemptions is executed under per-thread CSPRNG tapes. Each thread's result must equal its solo result (byte-identical files; RSA: decrypts identically), every ciphertext must decrypt with an unshared identity, nothing may panic or overrun, and the shared values must still work afterwards. A deep hash of the shared values and of every package-level variable is compared after every execution (independence note). A separate free-running build of the same operations under the race detector reports unsynchronised accesses the cooperative hand-offs would hide.",
+		LevelNote: "interleavings are explored at statement granularity of the age packages under sequential consistency; the standard library and x/crypto are atomic steps; sub-statement and memory-model effects are left to the auxiliary -race pass, which observes executions rather than enumerating them",
+		Technique: "stateless model checking of the implementation: exhaustive preemption-bounded schedule enumeration under a controlled cooperative scheduler over auto-instrumented sources; auxiliary free-running race-detector pass",
+		Rule: "states = scenarios x independence verdict; transitions = scheduling points passed; traces_validated_against_impl = schedules executed on the real (instrumented) code; oracle = equality with the solo result of each thread under the same per-thread tape",
+		Assumptions: commonAssume,
+		Runs: []Run{{Pkg: hp + "c20", Variant: "instr", Procs: 4}, {Pkg: hp + "c20race", Variant: "real", Race: true, Shards: 3, Procs: 16, Optional: true}},
+	}
+}
